@@ -35,7 +35,7 @@ def _replay_range(ctor):
             return None
         return f'''
 import sys
-sys.path.insert(0, "/repo")
+sys.path.insert(0, __import__("os").environ.get("PVC_REPO", "/repo"))
 from ptera.tools import Range, every, between
 start, end, modulo, value = {start!r}, {end!r}, {mod!r}, {value!r}
 pred = {ctor}
@@ -123,7 +123,7 @@ def _cmp_unit(name, rel, pyop):
         m = o["model"] or {}
         return f'''
 import sys
-sys.path.insert(0, "/repo")
+sys.path.insert(0, __import__("os").environ.get("PVC_REPO", "/repo"))
 from ptera.tools import {name}
 a, x = {int(m.get("a", 0))}, {int(m.get("x", 0))}
 got, want = {name}(a)(x), (x {pyop} a)
